@@ -221,3 +221,7 @@ func verifRunThreads(maxSteps int) int {
 
 // verifCrashed: an unrecovered panic in an interpreted goroutine (natively the process dies instead).
 func verifCrashed() bool { return false }
+
+// verifOutcome records a canonical summary of the run's observable outcome (used to
+// validate the interleaving reduction: the set of outcomes must not depend on it).
+func verifOutcome(s string) {}
